@@ -316,8 +316,14 @@ class SchemaBuilder(
                 additional_properties = self._properties_schema(
                     self._object_schema(cls, field)
                 )
-        alias_by_names = {f.name: AliasedStr(f.alias) for f in fields}.__getitem__
-        dependent_required = get_dependent_required(cls)
+        aliases = {f.name: AliasedStr(f.alias) for f in fields}
+        alias_by_names = aliases.__getitem__
+        # fields skipped for this operation can neither require nor be required
+        dependent_required = {
+            f: [req for req in reqs if req in aliases]
+            for f, reqs in get_dependent_required(cls).items()
+            if f in aliases and any(req in aliases for req in reqs)
+        }
         result = []
         if discriminator_parent := get_discriminated_parent(cls):
             discriminator_ref = self.ref_schema(
